@@ -22,6 +22,28 @@ REPO = os.environ.get("SFA_REPO", "/repo")
 PROPS = [f"C{i:02d}" for i in range(1, 21)]
 
 
+def _steps(fn):
+    """The rule calls of a clause function, as separately runnable steps (the whole function when it is more than a sequence of calls)."""
+    import ast
+    import inspect
+    try:
+        tree = ast.parse(inspect.getsource(fn))
+    except (OSError, SyntaxError, TypeError):
+        return [fn]
+    fd = tree.body[0]
+    if not isinstance(fd, ast.FunctionDef) or len(fd.args.args) != 1:
+        return [fn]
+    body = [st for st in fd.body if not (isinstance(st, ast.Expr) and isinstance(st.value, ast.Constant))]
+    if len(body) < 2 or not all(isinstance(st, ast.Expr) and isinstance(st.value, ast.Call) for st in body):
+        return [fn]
+    arg = fd.args.args[0].arg
+    out = []
+    for st in body:
+        code = compile(ast.fix_missing_locations(ast.Expression(st.value)), inspect.getsourcefile(fn) or "<clause>", "eval")
+        out.append(lambda ctx, code=code: eval(code, fn.__globals__, {arg: ctx}))
+    return out
+
+
 def run_check(prop: str, tier: str, repo: str = REPO, quiet: bool = False, write: bool = True):
     """Returns (exit_code, ctx, violations, known_hits, error)."""
     if os.path.abspath(repo) != "/repo":
@@ -41,13 +63,16 @@ def run_check(prop: str, tier: str, repo: str = REPO, quiet: bool = False, write
                 continue
             ctx.clause = clause_id
             n0 = len(ctx.instances)
-            try:
-                fn(ctx)
-                if len(ctx.instances) == n0:
-                    raise AnalysisError(f"{clause_id} ({title}) produced no rule instance - it would pass vacuously")
-            except AnalysisError as e:
-                # a definite violation found elsewhere is still reported; without one the run is exit 2
-                errors.append(f"{clause_id}: {e}")
+            # a clause that is a plain sequence of rule calls runs each rule on its own: a rule that does not recognise the code (analysis
+            # error) does not keep the clause's other rules from deciding
+            for step in _steps(fn):
+                try:
+                    step(ctx)
+                except AnalysisError as e:
+                    # a definite violation found elsewhere is still reported; without one the run is exit 2
+                    errors.append(f"{clause_id}: {e}")
+            if len(ctx.instances) == n0 and not any(x.startswith(f"{clause_id}:") for x in errors):
+                errors.append(f"{clause_id}: ({title}) produced no rule instance - it would pass vacuously")
         from .report import VIOLATION as _V, known_match as _km, load_known as _lk
         _known = _lk()
         if errors and not any(i.verdict == _V and _km(i, prop, _known) is None for i in ctx.instances):
